@@ -1,5 +1,6 @@
 import CssVerif.Lemmas.Num
 import CssVerif.Lemmas.NumColor
+import CssVerif.Model.NumF64
 /-!
 # C18 — value normalisation never changes what a value denotes
 
@@ -117,6 +118,43 @@ example : roundTrip Prefs.default .percentage (cps "+0%") = .ok (cps "0%") := by
 example : roundTrip Prefs.default .dimension (cps "001.500deg") = .ok (cps "1.5deg") := by decide +kernel
 example : roundTrip Prefs.default .number (cps "x") = .error .indexError := by decide +kernel
 
+/-! ## the binary64 layer and the known finding `C18-float-digits`
+
+`roundTripF64` evaluates the serializer's number operations on IEEE-754 doubles, as CPython does; it agrees with
+the implementation on every literal of every run (correspondence, no domain restriction). The theorems above are
+about the exact layer `roundTrip`. Full statement of the bridge (validated by the driver on every in-domain literal
+of every run — 134 000 per quick run — but not yet proved in Lean, see docs/C18.md):
+
+    theorem f64_bridge (l : Lit) (h : l.Wf) (h6 : (l.fp.getD []).length ≤ 6)
+        (hr : if E.allZero (l.fp.getD []) then natOfDigits l.ip ≤ 2^53 else natOfDigits l.ip < 2^33) :
+        roundTripF64 p typ l.text = roundTrip p typ l.text
+
+Outside that window the implementation really is lossy: -/
+
+/-- the witness of `C18-float-digits`, machine-checked: CPython's arithmetic writes `8589934592.3px` as
+`8589934592.299999px` (2^33 is the first magnitude where half an ulp exceeds half a unit of the sixth decimal),
+and the two texts denote different numbers -/
+theorem float_region_witness :
+    roundTripF64 Prefs.default .dimension (cps "8589934592.3px") = .ok (cps "8589934592.299999px") ∧
+    roundTrip Prefs.default .dimension (cps "8589934592.3px") = .ok (cps "8589934592.3px") ∧
+    (denote (cps "8589934592.299999px")).map (fun d => (d.mant, d.scale)) = some (8589934592299999, 6) ∧
+    (denote (cps "8589934592.3px")).map (fun d => (d.mant, d.scale)) = some (85899345923, 1) ∧
+    8589934592299999 * 10 ^ 1 ≠ 85899345923 * 10 ^ 6 := by
+  decide +kernel
+
+/-- … and from 2^53 on the integer digits go: `12345678901234567.5px` is written `12345678901234568px` -/
+theorem float_region_witness_2 :
+    roundTripF64 Prefs.default .dimension (cps "12345678901234567.5px") = .ok (cps "12345678901234568px") := by
+  decide +kernel
+
+/-- just below the bound the binary64 layer is exact (samples; the general statement is `f64_bridge` above) -/
+example : roundTripF64 Prefs.default .dimension (cps "8589934591.999999px") = .ok (cps "8589934591.999999px") := by
+  decide +kernel
+example : roundTripF64 { Prefs.default with omitLeadingZero := true } .dimension (cps "-0.050em") = .ok (cps "-.05em") := by
+  decide +kernel
+example : roundTripF64 Prefs.default .number (cps "9007199254740992.0") = .ok (cps "9007199254740992") := by
+  decide +kernel
+
 /-! ## T18.3 hash colours -/
 
 /-- T18.3a: a hash colour is only ever rewritten when `minimizeColorHash` is set, it has seven characters
@@ -204,5 +242,40 @@ exact value of each argument: writing the arguments in another way that denotes 
 that number normalisation does, T18.1) cannot change red, green, blue or alpha — rgb, rgba, hsl and hsla alike -/
 theorem color_function_channels_stable (s t : List CItem) (h : SameComps s t) : funcChannels s = funcChannels t :=
   funcChannels_congr h
+
+
+/-! ## strings and URLs: witnesses of the known findings that the model exhibits
+
+The general round-trip statement for strings and URLs (`cssStringDenote (helperString r) = some (storedDenote r)`
+for every stored value `r` without an escaped double quote; `writtenUrlDenote (helperUri r) = some (storedDenote r)`
+for every `r` outside the three regions below) is checked by correspondence + oracle only; it is not yet a theorem. -/
+
+/-- `C18-escaped-dquote`: the stored value `a\"b` (from `'a\"b'`) is written `"a\\"b"`, which is not one string -/
+theorem escaped_dquote_witness :
+    helperString (cps "a\\\"b") = cps "\"a\\\\\"b\"" ∧ cssStringDenote (cps "\"a\\\\\"b\"") = none ∧
+    storedDenote (cps "a\\\"b") = cps "a\"b" := by decide +kernel
+
+/-- `C18-url-trailing-backslash`: the stored URL `a \\` (content `a \`) is written as an unterminated string -/
+theorem url_trailing_backslash_witness :
+    helperUri (cps "a \\\\") = cps "url(\"a \\\\\\\")" ∧ writtenUrlDenote (cps "url(\"a \\\\\\\")") = none := by
+  decide +kernel
+
+/-- `C18-url-control-char`: a URL with U+007F is written unquoted, which is not a readable `url()` -/
+theorem url_control_witness :
+    helperUri [0x61, 0x7F, 0x62] = cps "url(" ++ [0x61, 0x7F, 0x62, 0x29] ∧
+    writtenUrlDenote (cps "url(" ++ [0x61, 0x7F, 0x62, 0x29]) = none := by decide +kernel
+
+/-- `C18-url-edge-escape`: `urivalue` on the unescaped token value of `url(\20 a)` / `url(\27 x\27 )` / a raw
+U+00A0 at the edge -/
+theorem url_edge_witness :
+    uriValue (cps "url( a)") = .ok (cps "a") ∧ uriValue (cps "url('x')") = .ok (cps "x") ∧
+    uriValue (cps "url(" ++ [0xA0, 0x61, 0x29]) = .ok (cps "a") := by decide +kernel
+
+/-- samples where the written form does denote the stored value (tests) -/
+example : cssStringDenote (helperString (cps "a\"b'c")) = some (cps "a\"b'c") := by decide +kernel
+example : cssStringDenote (helperString [0x61, 0x0A, 0x62, 0x0D, 0x5C]) = some [0x61, 0x0A, 0x62, 0x0D, 0x5C] := by
+  decide +kernel
+example : writtenUrlDenote (helperUri (cps "a b(c)")) = some (cps "a b(c)") := by decide +kernel
+example : writtenUrlDenote (helperUri (cps "a.png")) = some (cps "a.png") := by decide +kernel
 
 end CssVerif.C18
